@@ -188,6 +188,27 @@ func init() {
 		"math/rand.Uint32": func(ex *Exec, fn *ssa.Function, a []Value, fr *Frame) Value { return ex.freshVar("rand.Uint32", 32) },
 		"strconv.Atoi":      intrAtoi,
 		"strconv.Itoa":      intrItoa,
+		"strconv.FormatInt": func(ex *Exec, fn *ssa.Function, a []Value, fr *Frame) Value {
+			base := a[1].(*Term)
+			if !base.IsConst() {
+				panic(unsupported("strconv.FormatInt with a symbolic base"))
+			}
+			if t := a[0].(*Term); t.IsConst() {
+				return ex.constStr(strconv.FormatInt(t.SInt(), int(base.SInt())))
+			}
+			if base.SInt() != 10 {
+				panic(unsupported("strconv.FormatInt of a symbolic value in a base other than 10"))
+			}
+			return intrItoa(ex, fn, a[:1], fr)
+		},
+		"strconv.FormatUint": func(ex *Exec, fn *ssa.Function, a []Value, fr *Frame) Value {
+			base := a[1].(*Term)
+			t := a[0].(*Term)
+			if !base.IsConst() || !t.IsConst() {
+				panic(unsupported("strconv.FormatUint on symbolic input"))
+			}
+			return ex.constStr(strconv.FormatUint(t.Val, int(base.SInt())))
+		},
 		"bytes.Join":        intrBytesJoin,
 		"bytes.NewBuffer":   intrBytesNewBuffer,
 		"(*bytes.Buffer).Next":  intrBufferNext,
@@ -201,6 +222,7 @@ func init() {
 		},
 		"encoding/binary.Read":  intrBinaryRead,
 		"(*bytes.Buffer).Read": intrBufferRead,
+		"io.ReadFull":          intrIOReadFull,
 		"(*bytes.Buffer).Reset": func(ex *Exec, fn *ssa.Function, a []Value, fr *Frame) Value {
 			// b.buf = b.buf[:0]; b.off = 0   (the backing array is kept: later writes reuse it)
 			o, buf, _ := ex.bufParts(a[0])
@@ -211,6 +233,8 @@ func init() {
 			sv[1] = ex.i64(0)
 			return nil
 		},
+		"net/http.CanonicalHeaderKey":            concStr1(textproto.CanonicalMIMEHeaderKey),
+		"net/textproto.CanonicalMIMEHeaderKey":   concStr1(textproto.CanonicalMIMEHeaderKey),
 		"strings.TrimRight":  concStr2(strings.TrimRight),
 		"strings.TrimLeft":   concStr2(strings.TrimLeft),
 		"strings.Trim":       concStr2(strings.Trim),
@@ -248,6 +272,7 @@ func init() {
 		"regexp.Compile":           intrRegexpCompile,
 		"(*regexp.Regexp).MatchString":         intrRegexpMatchString,
 		"(*regexp.Regexp).FindStringSubmatch":  intrRegexpFindStringSubmatch,
+		"(*regexp.Regexp).FindStringSubmatchIndex": intrRegexpFindStringSubmatchIndex,
 		"(*regexp.Regexp).String":              intrRegexpString,
 		"github.com/vicanso/pike/log.Default": func(ex *Exec, fn *ssa.Function, a []Value, fr *Frame) Value { return &Pointer{} },
 		"github.com/vicanso/pike/cache.MemHash": intrMemHash,
@@ -609,6 +634,42 @@ func (ex *Exec) verifCall(fn *ssa.Function, args []Value, fr *Frame) Value {
 			ex.res.Events = append(ex.res.Events, "config field not persisted: "+b)
 		}
 		return ex.i64(int64(len(bad)))
+	case "verifChanSliceLen", "verifChanSliceClear":
+		// role-based access (robust against renames): the unique field of type []chan T of the struct
+		iv := args[0].(*IfaceV)
+		op, _ := iv.Val.(*Pointer)
+		pt, ok := iv.Typ.(*types.Pointer)
+		if !ok || op == nil || op.IsNil() {
+			panic(unsupported(fn.Name() + ": not a pointer to a struct"))
+		}
+		st, ok := pt.Elem().Underlying().(*types.Struct)
+		if !ok {
+			panic(unsupported(fn.Name() + ": not a pointer to a struct"))
+		}
+		idx := -1
+		for i := 0; i < st.NumFields(); i++ {
+			if sl, ok := st.Field(i).Type().Underlying().(*types.Slice); ok {
+				if _, ok := sl.Elem().Underlying().(*types.Chan); ok {
+					if idx >= 0 {
+						panic(unsupported(fn.Name() + ": more than one []chan field"))
+					}
+					idx = i
+				}
+			}
+		}
+		if idx < 0 {
+			panic(unsupported(fn.Name() + ": no []chan field"))
+		}
+		q := &Pointer{Obj: op.Obj, Path: append(append([]PathEl{}, op.Path...), PathEl{Idx: idx})}
+		if fn.Name() == "verifChanSliceClear" {
+			ex.store(q, ex.zero(st.Field(idx).Type()))
+			return nil
+		}
+		sv, _ := ex.load(q).(*SliceV)
+		if sv == nil || sv.Arr == nil {
+			return ex.i64(0)
+		}
+		return sv.Len
 	case "verifSpawnedCount":
 		lst, _ := ex.ghost["spawned"].([]deferred)
 		return ex.i64(int64(len(lst)))
@@ -1330,6 +1391,49 @@ func intrBufferRead(ex *Exec, fn *ssa.Function, a []Value, fr *Frame) Value {
 	}
 	o.Val.(StructV)[1] = tb.Add(off, n)
 	return TupleV{n, &IfaceV{}}
+}
+
+// io.ReadFull(r, buf) for a *bytes.Buffer reader: len(buf) bytes or an error (io.EOF when nothing
+// was left, io.ErrUnexpectedEOF after a partial read; the buffer is drained then).
+func intrIOReadFull(ex *Exec, fn *ssa.Function, a []Value, fr *Frame) Value {
+	tb := ex.tb
+	r := a[0].(*IfaceV)
+	if r.Typ == nil || !strings.HasSuffix(typeStr(r.Typ), "bytes.Buffer") {
+		panic(unsupported("io.ReadFull from " + fmt.Sprint(r.Typ)))
+	}
+	p := a[1].(*SliceV)
+	plen := ex.concInt(p.Len, "io.ReadFull: len(buf)")
+	if plen == 0 {
+		return TupleV{ex.i64(0), &IfaceV{}}
+	}
+	o, buf, off := ex.bufParts(r.Val)
+	rem := tb.Sub(buf.Len, off)
+	poff := ex.concInt(p.Off, "io.ReadFull: offset of buf")
+	arr := p.Arr.Val.(ArrayV)
+	if ex.branch(tb.Cmp(OpSle, ex.i64(int64(plen)), rem)) {
+		p.Arr.UF = ""
+		for i := 0; i < plen; i++ {
+			arr[poff+i] = ex.readAt(buf.Arr, tb.Add(tb.Add(buf.Off, off), ex.i64(int64(i))))
+		}
+		o.Val.(StructV)[1] = tb.Add(off, ex.i64(int64(plen)))
+		return TupleV{ex.i64(int64(plen)), &IfaceV{}}
+	}
+	if ex.branch(tb.Eq(rem, ex.i64(0))) {
+		return TupleV{ex.i64(0), ex.libError("io.EOF")}
+	}
+	// partial read: the available bytes are copied, the count is what was left
+	p.Arr.UF = ""
+	for i := 0; i < plen; i++ {
+		inRange := tb.Cmp(OpSlt, ex.i64(int64(i)), rem)
+		pos := tb.Add(tb.Add(buf.Off, off), tb.Ite(inRange, ex.i64(int64(i)), ex.i64(0)))
+		old, _ := arr[poff+i].(*Term)
+		if old == nil {
+			old = tb.BV(8, 0)
+		}
+		arr[poff+i] = tb.Ite(inRange, ex.readAt(buf.Arr, pos), old)
+	}
+	o.Val.(StructV)[1] = buf.Len
+	return TupleV{rem, ex.libError("io.ErrUnexpectedEOF")}
 }
 
 func (ex *Exec) getUint(s *SliceV, nb int) Value {
